@@ -269,4 +269,16 @@ theorem createProg_noop (sch inj) (c : Nat) (id? : Option Nat) (missing : Bool) 
 theorem list_set_getD_self {α} (l : List α) (i : Nat) (d : α) (h : i < l.length) : l.set i (l.getD i d) = l := by
   simp [List.getD, List.getElem?_eq_getElem h]
 
+
+/-- a value that does not validate stops `set()` before anything else happened, whatever else is
+    among the keywords -/
+theorem setProg_invalid_noop (sch inj) (c id : Nat) (kw : List (Nat × In)) (ex : List Extra) (k : Prog) (s s' : St)
+    (r : Option Err) (hbad : allOk kw = false)
+    (h : run sch inj (setProg sch c id kw ex k) s = (s', r)) : s'.core = s.core := by
+  unfold setProg at h
+  split at h <;>
+  · simp only [run, run_validates, hbad, Bool.false_eq_true, if_false] at h
+    simp only [Prod.mk.injEq] at h
+    rw [← h.1]
+
 end SqlObjVerif.Fail
